@@ -35,10 +35,10 @@ type codeStats struct {
 	jumps map[string]bool
 	// instructions by class
 	shortJumps, longJumps int
-	slotWide          map[string]int // LDLOC/STLOC/LDARG/STARG/LDSFLD/STSFLD with an operand (index >= 7)
-	maxIndex          map[string]int
-	initslotLocals    map[int]int // INITSLOT by number of locals (capped at 12)
-	initslotArgs      map[int]int
+	slotWide              map[string]int // LDLOC/STLOC/LDARG/STARG/LDSFLD/STSFLD with an operand (index >= 7)
+	maxIndex              map[string]int
+	initslotLocals        map[int]int // INITSLOT by number of locals (capped at 12)
+	initslotArgs          map[int]int
 }
 
 var cstats = &codeStats{jumps: map[string]bool{}, slotWide: map[string]int{}, maxIndex: map[string]int{}, initslotLocals: map[int]int{}, initslotArgs: map[int]int{}}
@@ -115,13 +115,13 @@ func (cs *codeStats) report() map[string]any {
 		dist[op] = strings.Join(near, ",")
 	}
 	return map[string]any{
-		"short_jump_instructions":                     cs.shortJumps,
-		"long_jump_instructions":                      cs.longJumps,
+		"short_jump_instructions":                      cs.shortJumps,
+		"long_jump_instructions":                       cs.longJumps,
 		"jump_distances_seen_within_120_136_by_opcode": dist,
-		"jump_opcode_distance_pairs_exactly_at_limit": atLimit,
-		"wide_slot_instructions":                      cs.slotWide,
-		"max_slot_index":                              cs.maxIndex,
-		"initslot_by_locals":                          cs.initslotLocals,
-		"initslot_by_arguments":                       cs.initslotArgs,
+		"jump_opcode_distance_pairs_exactly_at_limit":  atLimit,
+		"wide_slot_instructions":                       cs.slotWide,
+		"max_slot_index":                               cs.maxIndex,
+		"initslot_by_locals":                           cs.initslotLocals,
+		"initslot_by_arguments":                        cs.initslotArgs,
 	}
 }
